@@ -7,6 +7,7 @@ import (
 	"fmt"
 	"math"
 	"strings"
+	"sync"
 	"testing"
 
 	"github.com/pinealctx/neptune/syncx/pipe"
@@ -23,13 +24,25 @@ import (
 
 func init() {
 	ulog.SetLogLevel(zapcore.FatalLevel)
-	// warm the reflective runner's process-wide function-type cache outside any simulation, so that the first
-	// scenario of a process takes the same path (read lock, cache hit) as every later one and as a replay
-	r := async.NewRunnerQ(async.WithQSize(1))
-	r.Run()
-	_, _ = r.AsyncCall(func(c context.Context, arg int) (interface{}, error) { return nil, nil }, context.Background(), 0)
-	r.Stop()
-	r.WaitStop()
+}
+
+// warmUp fills the reflective runner's process-wide function-type cache before the first scenario of a process, so that
+// the first scenario takes the same path (read lock, cache hit) as every later one and as a replay. It runs as a
+// simulation of its own (once): if the code under test is broken so badly that this panics or hangs, the simulator
+// contains it and the scenarios proper report it.
+var warmOnce sync.Once
+
+func warmUp(t *testing.T) {
+	warmOnce.Do(func() {
+		hx.RunSim(t, simrt.Config{Seed: 1, MaxSteps: 20000, YieldPermille: 1000}, nil, func(s *simrt.Sim) {
+			wg := &simsync.WaitGroup{}
+			r := async.NewRunnerQ(async.WithQSize(1), async.WithWaitGroup(wg))
+			r.Run()
+			_, _ = r.AsyncCall(func(c context.Context, arg int) (interface{}, error) { return nil, nil }, context.Background(), 0)
+			r.Stop()
+			r.WaitStop()
+		})
+	})
 }
 
 type laneCall struct {
@@ -187,6 +200,7 @@ func errFor(id int) error       { return fmt.Errorf("error-of-%d", id) }
 
 func runC14(t *testing.T, sci interface{}, keepLog bool) *hx.Outcome {
 	sc := sci.(*C14Scenario)
+	warmUp(t)
 	var (
 		ev            int64
 		recs          []*callRec
